@@ -213,6 +213,37 @@ theorem quiescent_released {s : State} (h : Reachable s)
   · intro hw; simp [hw] at this; omega
   · intro hr; simp [hr] at this; omega
 
+
+/-- the state after a one-rule cascade with a failing rule has run to its end -/
+def sEnd : State :=
+  { workers := 1, failFirst := false,
+    mons := [{ parent := none, phase := .done, todo := [], returned := [7], failed := [7], err := some [7], inErrors := true }],
+    unfinished := 0, posted := 1, waiting := true, handlerReg := true, released := 1, handlerCalls := 1 }
+
+theorem sEnd_reachable : Reachable sEnd :=
+  ⟨1, false, [.register, .addEvent 0 true [7], .pop 0 0, .ruleReturns 0 false, .taskDone 0,
+    .setErrors 0, .errFinish 0, .notified 0, .dropQueue, .post, .observerRuns .wait, .observerRuns .handler,
+    .observerRuns .queue], by decide⟩
+
+theorem sEnd_quiescent : ∀ e, e.internal = true → step sEnd e = none := by
+  intro e he
+  cases e with
+  | pop w i => cases i <;> simp [step, sEnd]
+  | ruleReturns i ok => cases i <;> simp [step, sEnd]
+  | taskDone i => cases i <;> simp [step, sEnd]
+  | setErrors i => cases i <;> simp [step, sEnd]
+  | errFinish i => cases i <;> simp [step, sEnd]
+  | notified i => cases i <;> simp [step, sEnd]
+  | dropQueue => decide
+  | post => decide
+  | observerRuns o => cases o <;> decide
+  | _ => simp [Event.internal] at he
+
+/-- non-vacuity of `all_handed_monitors_finish` / `quiescent_released`: a reachable quiescent state -/
+example : ∃ s, Reachable s ∧ 0 < s.workers ∧ (∀ e, e.internal = true → step s e = none) ∧
+    (∀ m ∈ s.mons, m.phase ≠ .fresh) ∧ s.waiting = true ∧ s.handlerReg = true :=
+  ⟨sEnd, sEnd_reachable, by decide, sEnd_quiescent, by decide, rfl, rfl⟩
+
 /-- when everything is finished but the waiter has not been released, the post or the wait
     callback is enabled -/
 theorem release_progress {s : State} (h : Reachable s) (hw : s.waiting = true)
